@@ -16,7 +16,8 @@ RULE = ('Hypothesis draws orchestration scenarios (1-4 user modules, any import 
         'placements over missing source, reader error, lexical / syntax / truncated / semantic / empty text and code '
         'generation failure, with ignoreErrors on and off, with and without borrowers (and writer failures, which do '
         'not count as failures of the closure). Non-trivial: the failure set is non-empty and >= 1 healthy module was '
-        'built. Distinct = scenario hash.')
+        'built. Distinct = scenario hash. Earlier compile() calls on the same object in a quarter of the scenarios; the '
+        'small scope (see C07) without searchers is enumerated completely in the thorough tier (every 31st in quick).')
 ASSUMPTIONS = [
     'writer failures are not part of the failure set (the statement lists find / parse / generate)',
     'a failed dependency that is not offered to borrowers under noDeps still counts as a failure',
